@@ -222,6 +222,8 @@ pub const PALETTES: [Palette; 3] = [
     Palette { rel: [10, 0x0040_0000 | 10], abs: [100, 500_000_100], name: "mixed-units" },
 ];
 
+pub const PALETTE_JUNK_BITS: Palette = Palette { rel: [0x0001_0090, 0x0041_0005], abs: [100, 200], name: "junk-bits" };
+
 pub struct Inst<'a> {
     pub fix: &'a Fix,
     pub pal: Palette,
@@ -1027,6 +1029,46 @@ pub fn shape_from_ms<Ctx: CtxInfo>(fix: &Fix, ms: &Miniscript<Pk, Ctx>, nkeys: u
     })
 }
 
+/// C04, native only: encode -> decode round trip of every B-typed class representative up to
+/// `max_nodes` nodes (no harness is generated for these; disagreements are native findings).
+pub fn deep_roundtrip<Ctx: CtxInfo>(fix: &Fix, max_nodes: usize, skip_upto: usize) -> (usize, Vec<String>) {
+    let mut n = 0;
+    let mut notes = vec![];
+    for e in enumerate::<Ctx>(fix, Ctx::ID, max_nodes) {
+        if e.base != spec::B || e.nodes <= skip_upto {
+            continue;
+        }
+        // second instantiation for fragments with relative locks: values with bits outside the
+        // consensus mask 0x0040ffff (legal in Miniscript, ignored by OP_CSV)
+        let pals: &[Palette] = if e.t.atoms().2 > 0 { &[PALETTES[0], PALETTE_JUNK_BITS] } else { &[PALETTES[0]] };
+        for pal in pals {
+        let mut inst = Inst::new(fix, *pal);
+        let ms: Miniscript<Pk, Ctx> = match inst.build(&e.t) {
+            Some(m) => m,
+            None => continue,
+        };
+        n += 1;
+        let script = ms.encode();
+        if ms.script_size() != script.len() {
+            notes.push(format!("{}: script_size() = {} but the encoding has {} bytes", ms, ms.script_size(), script.len()));
+        }
+        match Miniscript::<Ctx::Key, Ctx>::decode_with_validation_params(&script, &miniscript::ValidationParams::MAX) {
+            Ok(dec) => {
+                if dec.encode() != script {
+                    notes.push(format!("{}: decode(encode(ms)) re-encodes differently", ms));
+                } else if dec.ty != ms.ty {
+                    notes.push(format!("{}: decoded miniscript has type {} but the encoded one has {}", ms, dec.ty, ms.ty));
+                } else if dec.script_size() != script.len() {
+                    notes.push(format!("{}: decoded miniscript predicts script size {} but the script has {} bytes", ms, dec.script_size(), script.len()));
+                }
+            }
+            Err(err) => notes.push(format!("{}: encode(ms) does not decode: {err}", ms)),
+        }
+        }
+    }
+    (n, notes)
+}
+
 // --------------------------------------------------------------------------
 // emission
 
@@ -1203,7 +1245,7 @@ pub fn main() {
     std::fs::create_dir_all(&out_dir).unwrap();
     let fix = Fix::new();
     if std::env::var("MSVERIF_PROP").map(|p| p == "C13").unwrap_or(false) {
-        C13_CAP.store(if tier == "thorough" { 160 } else { 40 }, std::sync::atomic::Ordering::Relaxed);
+        C13_CAP.store(if tier == "thorough" { 160 } else { 20 }, std::sync::atomic::Ordering::Relaxed);
         C13_SEED.store(seed as usize, std::sync::atomic::Ordering::Relaxed);
     }
     match what {
@@ -1254,6 +1296,17 @@ fn gen_shapes(fix: &Fix, tier: &str, seed: u64, out_dir: &str) {
         enumerated.insert("bare", s.enumerated);
         errors.extend(s.errors);
         all.extend(s.shapes);
+    }
+    // C04 only: deep native round trip (no harnesses)
+    let mut deep_n = 0usize;
+    let mut deep_notes: Vec<String> = vec![];
+    if std::env::var("MSVERIF_PROP").map(|p| p == "C04").unwrap_or(false) {
+        let deep = std::env::var("MSVERIF_C04_DEEP").ok().and_then(|v| v.parse().ok()).unwrap_or(if tier == "thorough" { 8usize } else { 7 });
+        let (n1, m1) = deep_roundtrip::<Segwitv0>(fix, deep, if tier == "thorough" { nt } else { nq });
+        let (n2, m2) = deep_roundtrip::<Tap>(fix, deep, if tier == "thorough" { nt } else { nq });
+        deep_n = n1 + n2;
+        deep_notes.extend(m1);
+        deep_notes.extend(m2);
     }
     let mut src = String::from(PRELUDE);
     for (i, g) in all.iter().enumerate() {
@@ -1310,7 +1363,7 @@ fn gen_shapes(fix: &Fix, tier: &str, seed: u64, out_dir: &str) {
         info.push_str("]}");
     }
     info.push_str(", \"native_roundtrip_checked\": ");
-    let _ = write!(info, "{}", all.len());
+    let _ = write!(info, "{}", all.len() + deep_n);
     info.push_str(", \"native_findings\": [");
     let mut first = true;
     for (i, g) in all.iter().enumerate() {
@@ -1321,6 +1374,13 @@ fn gen_shapes(fix: &Fix, tier: &str, seed: u64, out_dir: &str) {
             first = false;
             let _ = write!(info, "{{\"prop\": \"C04\", \"shape\": \"SH{}\", \"miniscript\": \"{}\", \"ctx\": {}, \"what\": \"{}\"}}", i, json_escape(&g.name), g.ctx, json_escape(n));
         }
+    }
+    for n in deep_notes.iter().take(40) {
+        if !first {
+            info.push(',');
+        }
+        first = false;
+        let _ = write!(info, "{{\"prop\": \"C04\", \"shape\": \"deep\", \"miniscript\": \"\", \"ctx\": 0, \"what\": \"{}\"}}", json_escape(n));
     }
     info.push_str("]}");
     write_out(out_dir, "shapes_info.json", &info);
